@@ -19,6 +19,9 @@ inductive Call (N : Type) where
   | msl (p : PState) (acc : List (Node N))
   | msh (p : PState) (acc : List (Bytes × Node N))
   | args (p : PState)
+  | prhs (bp : Nat) (p : PState)
+  | filter (n : Node N) (p : PState)
+  | pis (left right : Node N) (p : PState)
 
 /-- Its result. -/
 inductive Out (N : Type) where
@@ -44,6 +47,9 @@ def run (tbl : ParserTable) (fuel : Nat) : Call N → Res (Out N)
   | .msl p acc => toOutN (parseMultiSelectList tbl fuel p acc)
   | .msh p acc => toOutN (parseMultiSelectHash tbl fuel p acc)
   | .args p => toOutA (parseArgs tbl fuel p)
+  | .prhs bp p => toOutN (parseProjectionRHS tbl fuel bp p)
+  | .filter n p => toOutN (parseFilter tbl fuel n p)
+  | .pis l r p => toOutN (projectIfSlice tbl fuel l r p)
 
 /-- The success paths of the parser that precedence-aware printing exercises. -/
 inductive R (tbl : ParserTable) : Call N → Out N → Prop where
@@ -115,6 +121,42 @@ inductive R (tbl : ParserTable) : Call N → Out N → Prop where
       R tbl (.expr tbl.ledArgExpref p.advance) (.node e p1) → p1.after = t :: rest → t.ty = .comma →
       p1.advance.after = t2 :: rest2 → t2.ty ≠ .rparen → R tbl (.args p1.advance) (.args as p3) →
       R tbl (.args p) (.args ((true, e) :: as) p3)
+  -- projections, slices, filters
+  | nudStarR {tok p t rest} : tok.ty = .star → p.after = t :: rest → t.ty = .rbracket →
+      R tbl (.nud tok p) (.node (.valueProj .identity .identity) p)
+  | nudStar {tok p t rest r p1} : tok.ty = .star → p.after = t :: rest → t.ty ≠ .rbracket →
+      R tbl (.prhs tbl.nudStar p) (.node r p1) → R tbl (.nud tok p) (.node (.valueProj .identity r) p1)
+  | nudFilter {tok p o} : tok.ty = .filter → R tbl (.filter .identity p) o → R tbl (.nud tok p) o
+  | nudFlatten {tok p r p1} : tok.ty = .flatten → R tbl (.prhs tbl.nudFlatten p) (.node r p1) →
+      R tbl (.nud tok p) (.node (.proj (.flatten .identity) r) p1)
+  | nudBracketIdx {tok p t rest right p1 o} : tok.ty = .lbracket → p.after = t :: rest → (t.ty = .number ∨ t.ty = .colon) →
+      parseIndexExpression (N := N) p = .ok (right, p1) → R tbl (.pis .identity right p1) o → R tbl (.nud tok p) o
+  | nudBracketStar {tok p s rb rest r p1} : tok.ty = .lbracket → p.after = s :: rb :: rest → s.ty = .star → rb.ty = .rbracket →
+      R tbl (.prhs tbl.nudBracketStar p.advance.advance) (.node r p1) → R tbl (.nud tok p) (.node (.proj .identity r) p1)
+  | nudListStar {tok p t u rest o} : tok.ty = .lbracket → p.after = t :: u :: rest → t.ty = .star → u.ty ≠ .rbracket →
+      R tbl (.msl p []) o → R tbl (.nud tok p) o
+  | ledDotStar {n p t rest r p1} : p.after = t :: rest → t.ty = .star → R tbl (.prhs tbl.ledDotStar p.advance) (.node r p1) →
+      R tbl (.led .dot n p) (.node (.valueProj n r) p1)
+  | ledFilter {n p o} : R tbl (.filter n p) o → R tbl (.led .filter n p) o
+  | ledFlatten {n p r p1} : R tbl (.prhs tbl.ledFlatten p) (.node r p1) → R tbl (.led .flatten n p) (.node (.proj (.flatten n) r) p1)
+  | ledBracketIdx {n p t rest right p1 o} : p.after = t :: rest → (t.ty = .number ∨ t.ty = .colon) →
+      parseIndexExpression (N := N) p = .ok (right, p1) → R tbl (.pis n right p1) o → R tbl (.led .lbracket n p) o
+  | ledBracketStar {n p s rb rest r p1} : p.after = s :: rb :: rest → s.ty = .star → rb.ty = .rbracket →
+      R tbl (.prhs tbl.ledBracketStar p.advance.advance) (.node r p1) → R tbl (.led .lbracket n p) (.node (.proj n r) p1)
+  | pisSlice {l r p rhs p1} : isSliceNode r = true → R tbl (.prhs tbl.sliceProj p) (.node rhs p1) →
+      R tbl (.pis l r p) (.node (.proj (.indexExpr l r) rhs) p1)
+  | pisIndex {l r p} : isSliceNode r = false → R tbl (.pis l r p) (.node (.indexExpr l r) p)
+  | filterFlat {n p cond p1 rb t rest} : R tbl (.expr tbl.filterCond p) (.node cond p1) → p1.after = rb :: t :: rest →
+      rb.ty = .rbracket → t.ty = .flatten → R tbl (.filter n p) (.node (.filterProj n .identity cond) p1.advance)
+  | filterRhs {n p cond p1 rb t rest r p2} : R tbl (.expr tbl.filterCond p) (.node cond p1) → p1.after = rb :: t :: rest →
+      rb.ty = .rbracket → t.ty ≠ .flatten → R tbl (.prhs tbl.filterRhs p1.advance) (.node r p2) →
+      R tbl (.filter n p) (.node (.filterProj n r cond) p2)
+  | prhsId {bp p t rest} : p.after = t :: rest → tbl.power t.ty < tbl.projStop → R tbl (.prhs bp p) (.node .identity p)
+  | prhsBracket {bp p t rest o} : p.after = t :: rest → ¬ tbl.power t.ty < tbl.projStop → (t.ty = .lbracket ∨ t.ty = .filter) →
+      R tbl (.expr bp p) o → R tbl (.prhs bp p) o
+  | prhsDot {bp p t rest o} : p.after = t :: rest → ¬ tbl.power t.ty < tbl.projStop → t.ty = .dot →
+      R tbl (.dot bp p.advance) o → R tbl (.prhs bp p) o
+  | dotStar {bp p t rest o} : p.after = t :: rest → t.ty = .star → R tbl (.expr bp p) o → R tbl (.dot bp p) o
 
 end Jmes.Parser
 
@@ -167,7 +209,7 @@ variable {N : Type} [NumOps N]
 
 macro "fuel0" : tactic =>
   `(tactic| (right; simp [run, parseExpression, ledLoop, nud, led, parseDotRHS, parseMultiSelectList,
-      parseMultiSelectHash, parseArgs, toOutN, toOutA, outOfFuel, oofMsg]))
+      parseMultiSelectHash, parseArgs, parseProjectionRHS, parseFilter, projectIfSlice, toOutN, toOutA, outOfFuel, oofMsg]))
 
 /-- Soundness of the relational description. -/
 theorem R_sound (tbl : ParserTable) {c : Call N} {o : Out N} (h : R tbl c o) : Yields tbl c o := by
@@ -571,5 +613,219 @@ theorem R_sound (tbl : ParserTable) {c : Call N} {o : Out N} (h : R tbl c o) : Y
           simp only [e2]; right; rfl
       · simp only [run] at e1; rw [toOutN_panic] at e1
         simp only [e1]; right; rfl
+
+  | nudStarR hty hafter hrb =>
+    intro fuel
+    cases fuel with
+    | zero => fuel0
+    | succ f =>
+      left
+      simp only [run, nud, hty, (cur_of_after hafter).1, bind, Res.bind, hrb, if_true, toOutN]
+  | nudStar hty hafter hnrb _ ih =>
+    intro fuel
+    cases fuel with
+    | zero => fuel0
+    | succ f =>
+      simp only [run, nud, hty, (cur_of_after hafter).1, bind, Res.bind, hnrb, if_false]
+      rcases ih f with e1 | e1
+      · simp only [run] at e1; rw [toOutN_ok] at e1
+        simp only [e1, toOutN]; left; trivial
+      · simp only [run] at e1; rw [toOutN_panic] at e1
+        simp only [e1]; right; rfl
+  | nudFilter hty _ ih =>
+    intro fuel
+    cases fuel with
+    | zero => fuel0
+    | succ f =>
+      have := ih f
+      simp only [run] at this ⊢
+      simp only [nud, hty]
+      exact this
+  | nudFlatten hty _ ih =>
+    intro fuel
+    cases fuel with
+    | zero => fuel0
+    | succ f =>
+      simp only [run, nud, hty, bind, Res.bind]
+      rcases ih f with e1 | e1
+      · simp only [run] at e1; rw [toOutN_ok] at e1
+        simp only [e1, toOutN]; left; trivial
+      · simp only [run] at e1; rw [toOutN_panic] at e1
+        simp only [e1]; right; rfl
+  | nudBracketIdx hty hafter hnc hidx _ ih =>
+    intro fuel
+    cases fuel with
+    | zero => fuel0
+    | succ f =>
+      have := ih f
+      simp only [run] at this ⊢
+      simp only [nud, hty, (cur_of_after hafter).1, bind, Res.bind, hnc, if_true, hidx]
+      exact this
+  | nudBracketStar hty hafter hs hrb _ ih =>
+    intro fuel
+    cases fuel with
+    | zero => fuel0
+    | succ f =>
+      have hl1 := look1_of_after hafter
+      simp only [run, nud, hty, (cur_of_after hafter).1, hs, bind, Res.bind, reduceCtorEq, or_self, if_false, if_true, hl1, hrb,
+        decide_true]
+      rcases ih f with e1 | e1
+      · simp only [run] at e1; rw [toOutN_ok] at e1
+        simp only [e1, toOutN]; left; trivial
+      · simp only [run] at e1; rw [toOutN_panic] at e1
+        simp only [e1]; right; rfl
+  | nudListStar hty hafter hs hnrb _ ih =>
+    intro fuel
+    cases fuel with
+    | zero => fuel0
+    | succ f =>
+      have hl1 := look1_of_after hafter
+      have := ih f
+      simp only [run] at this ⊢
+      simp only [nud, hty, (cur_of_after hafter).1, hs, bind, Res.bind, reduceCtorEq, or_self, if_false, if_true, hl1, hnrb,
+        decide_false, Bool.false_eq_true]
+      exact this
+  | ledDotStar hafter hs _ ih =>
+    intro fuel
+    cases fuel with
+    | zero => fuel0
+    | succ f =>
+      unfold run led
+      simp only [(cur_of_after hafter).1, hs, bind, Res.bind, ne_eq, not_true_eq_false, if_false]
+      rcases ih f with e1 | e1
+      · simp only [run] at e1; rw [toOutN_ok] at e1
+        simp only [e1, toOutN]; left; trivial
+      · simp only [run] at e1; rw [toOutN_panic] at e1
+        simp only [e1]; right; rfl
+  | ledFilter _ ih =>
+    intro fuel
+    cases fuel with
+    | zero => fuel0
+    | succ f =>
+      have := ih f
+      unfold run at this ⊢
+      unfold led
+      exact this
+  | ledFlatten _ ih =>
+    intro fuel
+    cases fuel with
+    | zero => fuel0
+    | succ f =>
+      unfold run led
+      simp only [bind, Res.bind]
+      rcases ih f with e1 | e1
+      · simp only [run] at e1; rw [toOutN_ok] at e1
+        simp only [e1, toOutN]; left; trivial
+      · simp only [run] at e1; rw [toOutN_panic] at e1
+        simp only [e1]; right; rfl
+  | ledBracketIdx hafter hnc hidx _ ih =>
+    intro fuel
+    cases fuel with
+    | zero => fuel0
+    | succ f =>
+      have := ih f
+      unfold run at this ⊢
+      unfold led
+      simp only [(cur_of_after hafter).1, bind, Res.bind, hnc, if_true, hidx]
+      exact this
+  | @ledBracketStar n p s rb rest r p1 hafter hs hrb _ ih =>
+    intro fuel
+    cases fuel with
+    | zero => fuel0
+    | succ f =>
+      have hexp1 := expect_ok hafter
+      rw [hs] at hexp1
+      have hadv : p.advance.after = rb :: rest := by simp [PState.advance, hafter]
+      have hexp2 := expect_ok hadv
+      rw [hrb] at hexp2
+      unfold run led
+      simp only [(cur_of_after hafter).1, hs, bind, Res.bind, reduceCtorEq, or_self, if_false, hexp1, hexp2]
+      rcases ih f with e1 | e1
+      · simp only [run] at e1; rw [toOutN_ok] at e1
+        simp only [e1, toOutN]; left; trivial
+      · simp only [run] at e1; rw [toOutN_panic] at e1
+        simp only [e1]; right; rfl
+  | pisSlice hsl _ ih =>
+    intro fuel
+    cases fuel with
+    | zero => fuel0
+    | succ f =>
+      simp only [run, projectIfSlice, hsl, if_true, bind, Res.bind]
+      rcases ih f with e1 | e1
+      · simp only [run] at e1; rw [toOutN_ok] at e1
+        simp only [e1, toOutN]; left; trivial
+      · simp only [run] at e1; rw [toOutN_panic] at e1
+        simp only [e1]; right; rfl
+  | pisIndex hsl =>
+    intro fuel
+    cases fuel with
+    | zero => fuel0
+    | succ f => left; simp only [run, projectIfSlice, hsl, Bool.false_eq_true, if_false, toOutN]
+  | @filterFlat n p cond p1 rb t rest _ hafter hrb hfl ih =>
+    intro fuel
+    cases fuel with
+    | zero => fuel0
+    | succ f =>
+      have hexp := expect_ok hafter
+      rw [hrb] at hexp
+      have hadv : p1.advance.after = t :: rest := by simp [PState.advance, hafter]
+      simp only [run, parseFilter, bind, Res.bind]
+      rcases ih f with e1 | e1
+      · simp only [run] at e1; rw [toOutN_ok] at e1
+        simp only [e1, hexp, (cur_of_after hadv).1, hfl, if_true, toOutN]; left; trivial
+      · simp only [run] at e1; rw [toOutN_panic] at e1
+        simp only [e1]; right; rfl
+  | @filterRhs n p cond p1 rb t rest r p2 _ hafter hrb hnfl _ ih1 ih2 =>
+    intro fuel
+    cases fuel with
+    | zero => fuel0
+    | succ f =>
+      have hexp := expect_ok hafter
+      rw [hrb] at hexp
+      have hadv : p1.advance.after = t :: rest := by simp [PState.advance, hafter]
+      simp only [run, parseFilter, bind, Res.bind]
+      rcases ih1 f with e1 | e1
+      · simp only [run] at e1; rw [toOutN_ok] at e1
+        simp only [e1, hexp, (cur_of_after hadv).1, hnfl, if_false]
+        rcases ih2 f with e2 | e2
+        · simp only [run] at e2; rw [toOutN_ok] at e2
+          simp only [e2, toOutN]; left; trivial
+        · simp only [run] at e2; rw [toOutN_panic] at e2
+          simp only [e2]; right; rfl
+      · simp only [run] at e1; rw [toOutN_panic] at e1
+        simp only [e1]; right; rfl
+  | prhsId hafter hlt =>
+    intro fuel
+    cases fuel with
+    | zero => fuel0
+    | succ f => left; simp only [run, parseProjectionRHS, (cur_of_after hafter).1, bind, Res.bind, hlt, if_true, toOutN]
+  | prhsBracket hafter hnlt hty _ ih =>
+    intro fuel
+    cases fuel with
+    | zero => fuel0
+    | succ f =>
+      have := ih f
+      simp only [run] at this ⊢
+      simp only [parseProjectionRHS, (cur_of_after hafter).1, bind, Res.bind, hnlt, if_false]
+      rcases hty with h | h <;> simp only [h, if_true, reduceCtorEq, if_false] <;> exact this
+  | prhsDot hafter hnlt hty _ ih =>
+    intro fuel
+    cases fuel with
+    | zero => fuel0
+    | succ f =>
+      have := ih f
+      simp only [run] at this ⊢
+      rw [hty] at hnlt
+      simp only [parseProjectionRHS, (cur_of_after hafter).1, bind, Res.bind, hty, hnlt, if_false, reduceCtorEq, if_true]
+      exact this
+  | dotStar hafter hty _ ih =>
+    intro fuel
+    cases fuel with
+    | zero => fuel0
+    | succ f =>
+      have := ih f
+      simp only [run] at this ⊢
+      simp only [parseDotRHS, (cur_of_after hafter).1, bind, Res.bind, hty, reduceCtorEq, or_true, or_false, if_true]
+      exact this
 
 end Jmes.Parser
